@@ -1,4 +1,5 @@
 """C14 — parsing yields well-formed logical lines that cover every token (structural clauses)."""
+import re
 from facts import norm, Origins
 from progress import dominating_variant_facts, bfs_path, LLP
 from table import Table, TooComplex, render
@@ -295,6 +296,7 @@ def check_c14(prog, rep, tier, cfg):
     # ---------------------------------------------------------------- C14.e who mutates line token lists
     contexts_end_only_by_their_predicate(prog, rep, "C14.g")
     no_parsed_subtree_is_dropped(prog, rep, "C14.h")
+    every_pass_is_parsed(prog, rep, "C14.i")
     R = "C14.e"
     w1 = sorted({a[0].npath for a in prog.field_accesses(P + "LocalLogicalLine", "tokens") if a[3] in ("refmut", "write", "write-inner")})
     import layout as _layout
@@ -405,6 +407,36 @@ def no_parsed_subtree_is_dropped(prog, rep, R):
                       "%s: the tree returned by %s can be dropped: %s — the tokens of that branch (up to the end of the file) are then in no pass and in no logical line"
                       % (short(b.npath), cal.split("::")[-1], r), where=c.where(), instance={"in": short(b.npath), "builder": cal.split("::")[-1]})
     rep.floor(R, "builder call sites in directive_tree.rs whose result must be kept", n, 4)
+
+
+PASS_DROPPERS = ("filter", "filter_map", "skip", "skip_while", "take", "take_while", "step_by", "map_while", "nth", "last", "find", "find_map", "dedup", "unique", "zip", "chunks")
+
+
+def every_pass_is_parsed(prog, rep, R):
+    """C14.i — every token is in a logical line only if every conditional-directive pass is given to the line parser: the loop of
+    parse_file that consumes `tree.passes()` iterates the pass iterator itself — no adaptor that can leave passes out (take / skip /
+    step_by / filter ..) sits between the iterator and the loop, and the loop is left only when the iterator is exhausted."""
+    b = prog.body(P + "parse_file")
+    if not rep.check(b is not None, R, "anchor:parse_file", "parse_file not found"):
+        return
+    loops = b.loops()
+    drivers = [(h, c) for h in loops for c in b.calls() if c.bb == h and (c.callee or "").endswith("Iterator::next")]
+    pl = [(h, c, canon(b, c.args[0])) for h, c in drivers if re.search(r"\bpasses\(", canon(b, c.args[0])) and not canon(b, c.args[0]).startswith("into_iter(next(")]
+    if not rep.check(len(pl) == 1, R, "anchor:pass-loop", "the loop of parse_file over DirectiveTree::passes() was not found (candidates: %d)" % len(pl)):
+        return
+    h, c, it = pl[0]
+    used = sorted({d for d in PASS_DROPPERS if re.search(r"\b%s\(" % d, it)})
+    rep.check(not used, R, "all-passes-consumed", "parse_file iterates the conditional-directive passes through %s: passes that are left out are never parsed, the tokens that only they reach are in no "
+              "logical line (iterated: %s)" % (used, it[:120]), where=c.where(), instance={"iterated": it[:160]})
+    # the only exit of the loop is the exhausted iterator
+    L = loops[h]
+    sw = c.t.get("target")
+    t = b.blocks[sw]["term"] if sw is not None else {}
+    none_tgt = [tb for v, tb in t.get("targets", []) if v == 0] if t.get("k") == "switch" else []
+    exits = [(x, s2) for x in L for s2 in b.succ[x] if s2 not in L and b.blocks[s2]["term"]["k"] != "unreachable" and not b.blocks[s2].get("cleanup")]
+    ok = bool(none_tgt) and all(x == sw and s2 == none_tgt[0] for x, s2 in exits)
+    rep.check(ok, R, "pass-loop-ends-only-when-exhausted", "the pass loop of parse_file can be left before the pass iterator is exhausted (break / return inside the loop): the remaining passes are never parsed",
+              where=c.where(), instance={"loop_exits": len(exits)})
 
 
 def contexts_end_only_by_their_predicate(prog, rep, R):
